@@ -93,7 +93,8 @@ def recognise_las(vers20: bool, ncurves: int, wrap: bool, lead: int, comments: b
         import C09_las as H9
         from spec import las_ref
         content = H9._content(vers20, ncurves, 2, True, c0, 4, 7)
-        lay = dict(wrap=wrap, lead=lead, sep=2, comments=comments, blanks=blanks, per_line=2, colon_pad=1, comment_indent=' ' * lead)
+        lay = dict(wrap=wrap, lead=lead, sep=2, comments=comments, blanks=blanks, per_line=2, colon_pad=1, comment_indent=' ' * lead,
+                   vers_fmt='%.2f' if c0 % 2 else '%.1f')
         text = las_ref.render(content, lay)
         mark.hit()
         t, ok = _typed(text.encode('ascii'))
